@@ -1419,6 +1419,76 @@ func runC11(c *cli.Ctx) error {
 		return err
 	}
 
+	// ---- multi: 2-3 handlers on different registries (one possibly without) in one process; each registry's
+	// exposed error counter must equal its own handler's failures, per cause (absolute values) ----
+	w = emit.NewWriter(c.Out, "C11", "multi")
+	for i := 0; i < 60*c.Scale; i++ {
+		setZstd(1)
+		nh := 2 + r.Intn(2)
+		type hnd struct {
+			h    http.Handler
+			g    *scriptG
+			reg  *prometheus.Registry
+			g0   int64
+			e0   int64
+			ownG int64
+			ownE int64
+		}
+		var hs []*hnd
+		noneAt := -1
+		if r.Bool() {
+			noneAt = r.Intn(nh)
+		}
+		for k := 0; k < nh; k++ {
+			x := &hnd{g: &scriptG{entered: make(chan int, 1)}}
+			opts := promhttp.HandlerOpts{ErrorHandling: promhttp.ContinueOnError}
+			if k != noneAt {
+				x.reg = prometheus.NewRegistry()
+				opts.Registry = x.reg
+			}
+			if r.Bool() {
+				x.h = promhttp.HandlerForTransactional(transG{x.g}, opts)
+			} else {
+				x.h = promhttp.HandlerFor(plainG{x.g}, opts)
+			}
+			hs = append(hs, x)
+		}
+		anyFail := false
+		for q := 0; q < 1+r.Intn(8); q++ {
+			x := hs[r.Intn(nh)]
+			x.g.fams = []*dto.MetricFamily{genFamily(r, 0)}
+			broken := 0
+			if r.Chance(1, 3) {
+				broken = 1 + r.Intn(2)
+				for b := 0; b < broken; b++ {
+					x.g.fams = append(x.g.fams, genBrokenFamily(1+b))
+				}
+			}
+			x.g.err = nil
+			if r.Chance(1, 2) {
+				x.g.err = errors.New("partial failure")
+				x.ownG++
+			}
+			x.ownE += int64(broken) // text format: every family without metrics is refused by the encoder
+			anyFail = anyFail || broken > 0 || x.g.err != nil
+			rec := httptest.NewRecorder()
+			x.h.ServeHTTP(rec, httptest.NewRequest("GET", "/metrics", nil))
+		}
+		var items []string
+		for _, x := range hs {
+			obs := emit.None()
+			if x.reg != nil {
+				cg, ce := errCounters(x.reg)
+				obs = emit.Some(emit.Tup(emit.Z(cg), emit.Z(ce)))
+			}
+			items = append(items, emit.Tup(emit.Z(x.ownG), emit.Z(x.ownE), obs))
+		}
+		w.Add(emit.C(4, emit.L(items)), anyFail, fmt.Sprintf("handlers:%d", nh), fmt.Sprintf("one-without-registry:%v", noneAt >= 0))
+	}
+	if err := w.Flush(); err != nil {
+		return err
+	}
+
 	// ---- stress: free-running concurrency, specification only ----
 	w = emit.NewWriter(c.Out, "C11", "stress")
 	for i := 0; i < 40*c.Scale; i++ {
